@@ -124,18 +124,19 @@ def parse_orders(tuples):
     return {k: list(v.values()) for k, v in out.items()}
 
 
-def c11_pipeline(rep, tier, seed, jit=False):
+def c11_pipeline(rep, tier, seed, jit=False, scale=1.0, synthetic=True):
     env = nucs_env(jit=jit)
-    nsc = 150 if tier == "quick" else 1200
-    max_orders = 8000 if tier == "quick" else 120000
+    nsc = int((150 if tier == "quick" else 1200) * scale)
+    max_orders = int((8000 if tier == "quick" else 120000) * scale)
     with Scratch("mp") as tmp:
         scs = gen_scenarios(seed, nsc, None)
         outs = run_workers("mp_worker.py", [{"kind": "streams", "scenarios": scs[k::NCPU]} for k in range(NCPU) if scs[k::NCPU]],
                            env, tmp, timeout=1500)
         streams = {s["id"]: s for s in read_ndjson(outs)}
-        syn, syn_streams = synthetic_scenarios(tier, base_id=100000)
-        scs = scs + syn
-        streams.update(syn_streams)
+        if synthetic:
+            syn, syn_streams = synthetic_scenarios(tier, base_id=100000)
+            scs = scs + syn
+            streams.update(syn_streams)
         # scenarios small enough for the exhaustive exploration of arrival orders
         small, big = [], []
         for sc in scs:
